@@ -100,7 +100,7 @@ class ContractMixin:
                 post.old = pre_snapshot
                 post.pc = s2.pc
                 for clause in clauses:
-                    s2.assume_raw(self.spec_bool(clause, post))
+                    s2.assume_raw(self.spec_assume(clause, post))
                 self.assume_histories(pre_snapshot, s2, bound)
                 if self.feasible(s2):
                     results.append(
@@ -132,7 +132,7 @@ class ContractMixin:
         post.old = pre_snapshot
         post.pc = st.pc
         for clause in fs.ensures:
-            c = self.spec_bool(clause, post)
+            c = self.spec_assume(clause, post)
             st.assume(c)
         if not fs.pure:
             self.assume_histories(pre_snapshot, st, bound)
@@ -199,7 +199,7 @@ class ContractMixin:
                     s.spec = True
                     s.pc = after.pc
                     s.guards = []
-                    after.assume_raw(self.spec_bool(clause, s))
+                    after.assume_raw(self.spec_assume(clause, s))
 
     def history_obligations(self, before: State, after: State, store, node):
         for name, v in store.items():
